@@ -147,6 +147,39 @@ Proof.
   exists th. split; [reflexivity|]. apply (esub_cur th s (C th H)). exact Hth.
 Qed.
 
+(** equation lists *)
+Theorem match_list_sound_cur : f_match_list_none f = true -> forall n eqs th,
+  forallb (fun e => cf (fst e) && cf (snd e)) eqs = true ->
+  match_list f n eqs [] = Some (Some th) ->
+  forall p i, In (p, i) eqs -> forall th', cfd' th' = true -> sub th th' ->
+    p_inst f (expand f p) (expand_delta f th') = expand f i.
+Proof.
+  intros Hml n eqs th Hall H p i Hin th' Hth' Hsub.
+  rewrite (match_list_bridge se ss f n eqs [] Hall eq_refl) in H.
+  destruct (match_list_sound g Hkeep Hextg Hml n eqs [] th H) as [_ B].
+  rewrite forallb_forall in Hall. specialize (Hall (p, i) Hin). apply andb_true_iff in Hall as [Hp Hi]. simpl in Hp, Hi.
+  rewrite (expand_eq se ss f p Hp), (expand_eq se ss f i Hi), (expand_delta_eq se ss f th' Hth').
+  rewrite (p_inst_bridge se ss f _ _ (expand_cfp se ss f p Hp) (expand_delta_cfs se ss f th' Hth')).
+  exact (B p i Hin th' Hsub).
+Qed.
+
+Theorem match_list_complete_cur : f_match_simplify f = true -> f_match_list_none f = true -> forall n eqs s res,
+  forallb (fun e => cf (fst e) && cf (snd e)) eqs = true ->
+  (forall p i, In (p, i) eqs ->
+     nosub (expand f p) = true /\ p_inst f (expand f p) s = expand f i /\
+     (forall k, In k (p_metavars (expand f p)) -> alookup k s <> None)) ->
+  match_list f n eqs [] = Some res -> exists th, res = Some th.
+Proof.
+  intros Hms Hml n eqs s res Hall Hs H.
+  rewrite (match_list_bridge se ss f n eqs [] Hall eq_refl) in H.
+  destruct (match_list_complete g Hkeep Hextg Hms Hml n eqs [] s res) as [th [-> _]]; [| |exact H|eauto].
+  - intros p i Hin. destruct (Hs p i Hin) as [H1 [H2 H3]].
+    rewrite forallb_forall in Hall. specialize (Hall (p, i) Hin). apply andb_true_iff in Hall as [Hp Hi]. simpl in Hp, Hi.
+    rewrite (expand_eq se ss f p Hp) in H1, H2, H3. rewrite (expand_eq se ss f i Hi) in H2.
+    rewrite (nosub_p_inst_any f g _ s H1) in H2. auto.
+  - intros k v Hk. discriminate.
+Qed.
+
 (** ---------------- C07 ---------------- *)
 Theorem mp_exact_cur n L R res : cf L = true -> cf R = true -> basic_mp f n L R = Some res ->
   forall c', (exists c, res = Some c /\ cf c = true /\ expand f c = c') <-> expand f L = Imp (expand f R) c'.
